@@ -1,8 +1,8 @@
 package main
 
 import (
-	"encoding/json"
 	"bytes"
+	"encoding/json"
 	"fmt"
 	"go/ast"
 	"go/printer"
@@ -33,33 +33,33 @@ type specSig struct {
 type summary struct{ docPure bool }
 
 type Program struct {
-	repo       string
-	verif      string
-	fset       *token.FileSet
-	pkgs       []*packages.Package
-	prog       *ssa.Program
-	spkgs      []*ssa.Package
-	funcs      map[string]*ssa.Function // relative name (per package) -> function; yqlib names unqualified, others "pkg:name"
-	contracts  map[string]*Contract
-	contractList []*Contract
-	specFuncs  map[string]specSig
-	specConsts map[string]string
-	specAcc    map[string]string
-	specText   string
-	specFileOf map[string]string
-	specNeeds  map[string][]string
-	specWhen   map[string][]string
-	specBodies map[string]string
-	specOrder  []string
-	lemmas     []*Lemma
-	summaries  map[*ssa.Function]summary
-	disabledAuto map[string]bool
-	errHandled map[string]map[string]string
+	repo           string
+	verif          string
+	fset           *token.FileSet
+	pkgs           []*packages.Package
+	prog           *ssa.Program
+	spkgs          []*ssa.Package
+	funcs          map[string]*ssa.Function // relative name (per package) -> function; yqlib names unqualified, others "pkg:name"
+	contracts      map[string]*Contract
+	contractList   []*Contract
+	specFuncs      map[string]specSig
+	specConsts     map[string]string
+	specAcc        map[string]string
+	specText       string
+	specFileOf     map[string]string
+	specNeeds      map[string][]string
+	specWhen       map[string][]string
+	specBodies     map[string]string
+	specOrder      []string
+	lemmas         []*Lemma
+	summaries      map[*ssa.Function]summary
+	disabledAuto   map[string]bool
+	errHandled     map[string]map[string]string
 	extraFrameHeap map[string]bool
-	mu         sync.Mutex
-	cmu        sync.RWMutex
-	assumptions map[string]bool
-	loadErr    []string
+	mu             sync.Mutex
+	cmu            sync.RWMutex
+	assumptions    map[string]bool
+	loadErr        []string
 }
 
 func (P *Program) usedAssumption(s string) {
